@@ -13,6 +13,7 @@ import (
 	"os"
 	"path/filepath"
 	"sort"
+	"sync"
 	"time"
 
 	"verifharness/coqfmt"
@@ -114,6 +115,57 @@ func main() {
 	meta["cut_cases"] = len(ccases)
 	meta["cut_outcomes"] = outcome
 	meta["cut_wall_s"] = time.Since(t0).Seconds()
+
+	// ---- E4: the fault classes of the property statement, end to end (status mapping)
+	t0 = time.Now()
+	var scs []fr.ExCase
+	for _, c := range fr.ExchangeCases(*tier, *seed) {
+		if c.Class == "" {
+			continue
+		}
+		if rp.Kind != "" && !(rp.Kind == "status" && rp.Name == c.Name) {
+			continue
+		}
+		scs = append(scs, c)
+	}
+	sobs := make([]*fr.ExObs, len(scs))
+	{
+		var wg sync.WaitGroup
+		sem := make(chan struct{}, 12)
+		for i := range scs {
+			wg.Add(1)
+			sem <- struct{}{}
+			go func(i int) {
+				defer wg.Done()
+				defer func() { <-sem }()
+				sobs[i] = fr.RunExchangeCase(scs[i])
+			}(i)
+		}
+		wg.Wait()
+	}
+	var slines []string
+	classN := map[string]int{"connfail": 1, "tlsfail": 2, "timeout": 3, "rejected": 4, "other": 5, "refusal": 6}
+	sf, _ := os.Create(filepath.Join(*out, "scases.jsonl"))
+	senc := json.NewEncoder(sf)
+	sclasses := map[string]int{}
+	for _, o := range sobs {
+		// the exchange that carries the fault is the last one of the case
+		if len(o.Exs) == 0 {
+			continue
+		}
+		ex := o.Exs[len(o.Exs)-1]
+		p := fr.ParseResponse(ex.Raw, ex.RawEOF, false)
+		slines = append(slines, fmt.Sprintf("(mkscase %d %s %d %s %s %d %d)", classN[o.Class], ex.Feat.Coq(), ex.UpStatus,
+			coqfmt.Bytes(ex.Raw), coqfmt.Bool(ex.RawEOF), map[string]int{fr.VComplete: 0, fr.VIncomplete: 1, fr.VMalformed: 2, fr.VNone: 3}[p.Verdict], p.Status))
+		senc.Encode(map[string]any{"name": o.Name, "class": o.Class, "status": p.Status, "verdict": p.Verdict, "err_hdr": ex.ErrHdr,
+			"up_status": ex.UpStatus, "feat": ex.Feat, "harness_err": o.Err})
+		sclasses[o.Class]++
+	}
+	sf.Close()
+	shards = append(shards, writeShards(*out, "scases", "scase", "scase_check", len(slines), func(i int) string { return slines[i] })...)
+	meta["status_cases"] = len(slines)
+	meta["status_classes"] = sclasses
+	meta["status_wall_s"] = time.Since(t0).Seconds()
 
 	// ---- E3: hostile client streams against the proxy in a child process
 	t0 = time.Now()
